@@ -695,7 +695,14 @@ func (x *Exec) evalSpecCall2(sc *specCtx, e *ast.CallExpr) Value {
 		return v
 	}
 	argT := func(i int) Term {
-		s, ok := arg(i).(Scalar)
+		a := arg(i)
+		if pv, isPtr := a.(PtrV); isPtr && !pv.Elem && len(pv.Path) == 0 {
+			return x.ptrScalar(pv) // a reference is a scalar (the object's identity)
+		}
+		if _, isNil := a.(NilV); isNil {
+			return intLit(0)
+		}
+		s, ok := a.(Scalar)
 		if !ok {
 			panic(engineErr("argument %d of %s must be scalar", i, name))
 		}
